@@ -371,7 +371,7 @@ class AsyncRestartWorld:
             elif ev[0] == "restart":
                 task = self.loop.start(self.gw.stop())
                 guard = 0
-                while self.loop.executor_jobs and guard < 6:
+                while not task.done() and self.loop.executor_jobs and guard < 6:
                     self.loop.complete_executor(0)
                     guard += 1
                 if not task.done():
